@@ -39,6 +39,7 @@ static xmpp_ctx_t *g_ctx;
 static xmpp_conn_t *g_conn;
 static char g_events[4096];
 static int g_type = 'c';
+static char g_althost[128]; /* host to connect to instead of the JID's domain ("" = none) */
 static int g_released;
 static int g_disconnects_this_attempt, g_connects_this_attempt, g_attempt_open;
 
@@ -521,6 +522,7 @@ int eng_conn(FILE *in, FILE *out)
             hbuf j, p;
             char *s;
             drop_conn();
+            g_althost[0] = 0;
             if (hparse(tok[1], &j) < 0 || hparse(tok[2], &p) < 0) {
                 fprintf(out, "= bad-op\n");
                 continue;
@@ -555,9 +557,9 @@ int eng_conn(FILE *in, FILE *out)
             if (kind == 'k')
                 rc = xmpp_connect_component(g_conn, "comp.example", 0, conn_handler, NULL);
             else if (kind == 'r')
-                rc = xmpp_connect_raw(g_conn, NULL, 0, conn_handler, NULL);
+                rc = xmpp_connect_raw(g_conn, g_althost[0] ? g_althost : NULL, 0, conn_handler, NULL);
             else
-                rc = xmpp_connect_client(g_conn, NULL, 0, conn_handler, NULL);
+                rc = xmpp_connect_client(g_conn, g_althost[0] ? g_althost : NULL, 0, conn_handler, NULL);
             if (rc == 0) {
                 g_disconnects_this_attempt = 0;
                 g_connects_this_attempt = 0;
@@ -612,6 +614,17 @@ int eng_conn(FILE *in, FILE *out)
                 xmpp_send_raw_string(g_conn, "%s", s);
                 free(s);
             }
+            hbuf_free(&b);
+        } else if (n == 2 && !strcmp(tok[0], "althost")) {
+            /* the application names the host to connect to (altdomain); the XMPP domain stays the
+             * JID's */
+            hbuf b;
+            if (hparse(tok[1], &b) < 0 || b.n >= sizeof(g_althost)) {
+                fprintf(out, "= bad-op\n");
+                continue;
+            }
+            memcpy(g_althost, b.p ? (char *)b.p : "", b.n);
+            g_althost[b.n] = 0;
             hbuf_free(&b);
         } else if (n == 1 && !strcmp(tok[0], "udisc")) {
             xmpp_disconnect(g_conn);
